@@ -134,8 +134,10 @@ def r16_3(ctx):
 def r16_4(ctx):
     idx = get_index(ctx.env)
     fs = idx.func("RZILTransformer.emit_stmt_blocks")
-    sorts = [U(n) for n in ast.walk(fs.node) if isinstance(n, ast.Call) and call_name(n) == "sorted"]
-    ctx.check("dependencies sorted by num_id", sorts == ["sorted(effect.get_exec_op_list(), key=lambda x: x.num_id)"], "sorted(effect.get_exec_op_list(), key=lambda x: x.num_id)", str(sorts), fn_where(idx, fs))
+    from .c11 import sorted_by_num_id
+
+    sorts = [n for n in ast.walk(fs.node) if isinstance(n, ast.Call) and call_name(n) == "sorted"]
+    ctx.check("dependencies sorted by num_id", len(sorts) == 1 and sorted_by_num_id(sorts[0]), "sorted(<effect>.get_exec_op_list(), key=lambda v: v.num_id)", str([U(x) for x in sorts]), fn_where(idx, fs))
     # the block layout prints in creation order because the operand dicts are insertion ordered and filled by add_op
     fa = idx.func("ILOpsHolder.add_pure")
     stores = sorted({U(n.targets[0]) for n in ast.walk(fa.node) if isinstance(n, ast.Assign)})
